@@ -70,7 +70,7 @@ def gen_t3(rng):
     """(T, rate, accel, jerk) in the firmware-valid domain; vertex families for the rate parabola."""
     for _ in range(200):
         T = pick_T(rng)
-        fam = rng.choice(["small", "zero_jerk", "vertex_inside", "vertex_edge", "uniform", "zero_first", "zero_first_two", "equal_ends"])
+        fam = rng.choice(["small", "zero_jerk", "vertex_inside", "vertex_edge", "uniform", "zero_first", "zero_first_two", "equal_ends", "vertex_mid"])
         if fam == "small":
             jerk = rng.randint(-12, 12); accel = rng.randint(-60, 60); rate = rng.randint(-500, 500)
         elif fam == "zero_jerk":
@@ -79,6 +79,11 @@ def gen_t3(rng):
             # scale so that J*T^2/2 and A*T stay below 2^31
             jmax = max(1, min(M, (2 * M) // max(1, T * T)))
             jerk = rng.randint(-jmax, jmax) or rng.choice([-1, 1])
+            if fam == "vertex_mid":
+                # the vertex within a quarter tick of the middle of the move, on either side of T/2 and (T+1)/2 (which end is the farther one?)
+                jerk = 4 * (jerk // 4 or 1)
+                v4 = 2 * T + rng.choice([-1, 0, 1, 1, 2, 3])            # 4 * vertex
+                accel = jerk * (2 - v4) // 4
             if fam == "equal_ends":
                 # the rate returns to its starting magnitude at the last tick (vertex exactly mid-move): r(1) = r(T) needs A = -J*T/2,
                 # r(1) = -r(T) needs 2*re = -(A*(T+1) + J*T*(T-1)/2)
